@@ -575,6 +575,8 @@ fn never_allocates(c: &mut Ctx, rng: &mut Rng) {
 }
 
 pub fn run(c: &mut Ctx) {
+    // this property rebuilds every state many times: very large sparse states are capped at 2^20 buckets
+    crate::states::set_huge_max_lg(20);
     c.run_scenarios(|c, idx, rng| {
         let recipe = RECIPES[((crate::util::mix(idx) / 11) % RECIPES.len() as u64) as usize];
         let spec = Spec::random(rng, recipe);
